@@ -506,15 +506,30 @@ func (g *genCtx) genPregel(c *Case, maxN int) {
 	}
 }
 
-// keys: output keys on some prod/inv/coll nodes; an input key on a prod/inv/coll node all of whose
-// data predecessors carry that same output key.
+// keys: output keys on some nodes (prod/inv/coll: the value under the key is a string; xform/conv/ident/sub:
+// it is the node's M output); an input key on a node all of whose data predecessors carry that same
+// output key with a value of the type the node takes (prod/inv/coll: string; xform/conv/ident/sub: M).
 func (g *genCtx) keys(c *Case) {
 	r := g.r
-	keyable := func(k string) bool { return k == "prod" || k == "inv" || k == "coll" }
-	_ = keyable
+	class := func(k string) string {
+		switch k {
+		case "prod", "inv", "coll":
+			return "s"
+		case "xform", "conv", "ident", "sub":
+			return "m"
+		}
+		return ""
+	}
 	for i := range c.Nodes {
-		if keyable(c.Nodes[i].Kind) && r.Chance(1, 4) {
-			c.Nodes[i].OutKey = []string{"ka", "kb"}[r.Intn(2)]
+		switch class(c.Nodes[i].Kind) {
+		case "s":
+			if r.Chance(1, 4) {
+				c.Nodes[i].OutKey = []string{"ka", "kb"}[r.Intn(2)]
+			}
+		case "m": // other key names: a successor without input key merges the chunks of all its predecessors
+			if r.Chance(1, 6) {
+				c.Nodes[i].OutKey = []string{"ma", "mb"}[r.Intn(2)]
+			}
 		}
 	}
 	preds := map[int][]int{}
@@ -533,13 +548,14 @@ func (g *genCtx) keys(c *Case) {
 		add(i, n.Succ, n.Branches)
 	}
 	for i := range c.Nodes {
-		if !keyable(c.Nodes[i].Kind) || len(preds[i]) == 0 {
+		cl := class(c.Nodes[i].Kind)
+		if cl == "" || len(preds[i]) == 0 {
 			continue
 		}
 		k := ""
 		ok := true
 		for _, p := range preds[i] {
-			if p == START || c.Nodes[p].OutKey == "" || (k != "" && c.Nodes[p].OutKey != k) {
+			if p == START || c.Nodes[p].OutKey == "" || class(c.Nodes[p].Kind) != cl || (k != "" && c.Nodes[p].OutKey != k) {
 				ok = false
 				break
 			}
